@@ -6,7 +6,7 @@ from ref import decmodel
 MODELS_CYCLE = [("PHSP", None), ("SVS", ["1.0"]), ("HELAMP", ["1.0", "0.0", "w"]), ("VSS", None)]
 
 
-def ast_of_tables(t, tag="", rename=None):
+def ast_of_tables(t, tag="", rename=None, derive=False):
     """t: {name: [daughter lists]} -> AST; every table name gets the suffix `tag` (leaves keep their names).
     rename: optional {abstract name: concrete name} applied first (e.g. to EvtGen spellings / aliases)."""
     rename = rename or {}
@@ -22,8 +22,18 @@ def ast_of_tables(t, tag="", rename=None):
         for li, ds in enumerate(lines):
             model, params = MODELS_CYCLE[(pi + li) % len(MODELS_CYCLE)]
             out.append([f"0.{pi+1}{li+1}", [nm(d) for d in ds], (pi + li) % 2, model, params])
-        ast.append(["Decay", nm(name), out])
+        if derive and name == "X":
+            # the table of X exists only through CopyDecay
+            ast += [["CopyDecay", nm(name), nm(name) + "src"], ["Decay", nm(name) + "src", out]]
+        elif derive and name == "Y" and all(d not in tabs for ds in lines for d in ds):
+            # the table of Y exists only through CDecay (leaves are renamed to self-conjugate names by the caller)
+            ast += [["ChargeConj", nm(name), nm(name) + "cc"], ["Decay", nm(name) + "cc", out], ["CDecay", nm(name)]]
+        else:
+            ast.append(["Decay", nm(name), out])
     return ast
+
+
+DERIVE_RENAME = {"p": "pi0", "q": "gamma"}
 
 
 def tables_of_ast(ast):
